@@ -204,7 +204,14 @@ def run_job(job):
             ev = dict(op)
             ev["exc"] = ""
             name = op["op"]
-            if name == "Prevent":
+            if name == "Prevent" and op.get("via") == "nested":
+                _counter[0] += 1
+                nonce = _counter[0]
+                out, exc = outcome(lambda: mod.fz(op["f"], op["a"], op["c"], nonce))
+                if exc.startswith("RuntimeError") and "prevented" in exc:
+                    exc = ""
+                ev["out"], ev["exc"] = conv(out), exc
+            elif name == "Prevent":
                 fn = with_ctx(mod.FNS[op["f"]], op["c"]).with_prevent_further_calls(True)
                 out, exc = outcome(lambda: fn(op["a"]))
                 if exc.startswith("RuntimeError") and "prevented" in exc:
